@@ -52,9 +52,9 @@ Proof.
   split; [reflexivity|]. split; [reflexivity|]. split; [right; split; reflexivity|].
   split; [simpl; repeat constructor; simpl; tauto|].
   split; [vm_compute; reflexivity|]. split.
-  - left. split; [reflexivity|]. exists (PStr "a"). split; [|vm_compute; reflexivity].
-    exists [RKey (PStr "a")], (NMap C07_i0 [(C07_leaf "b", C07_leaf "a")]), (RKey (PStr "b")), C07_i0.
-    split; [reflexivity|]. split.
+  - left. split; [reflexivity|]. exists (C07_leaf "a"). split; [|vm_compute; reflexivity].
+    exists [RKey (PStr "a")], (NMap C07_i0 [(C07_leaf "b", C07_leaf "a")]), (RKey (PStr "b")).
+    split; [reflexivity|]. split; [|split; [|reflexivity]].
     + apply (reach_step C07_wdoc (key_ref (C07_leaf "a")) (NMap C07_i0 [(C07_leaf "b", C07_leaf "a")])).
       * constructor. left; reflexivity.
       * constructor.
@@ -178,9 +178,9 @@ Proof.
   exists C07_lit0, C07_re0, [], (mkterms false MEquals "*" "b"), Dot, (mkopts true false false false false false),
          C07_doc_reuse, [RIdx 1].
   split; [reflexivity|]. split; [reflexivity|]. split; [reflexivity|]. split; [vm_compute; reflexivity|].
-  left. split; [reflexivity|]. exists (PStr "b"). split; [|vm_compute; reflexivity].
-  exists [], C07_doc_reuse, (RIdx 1), (mkinfo 2 (Some "x") true None). split; [reflexivity|].
-  split; [constructor|]. apply child_seq. reflexivity.
+  left. split; [reflexivity|]. exists (NLeaf (mkinfo 2 (Some "x") true None) (PStr "b")). split; [|vm_compute; reflexivity].
+  exists [], C07_doc_reuse, (RIdx 1). split; [reflexivity|].
+  split; [constructor|]. split; [|reflexivity]. apply child_seq. reflexivity.
 Qed.
 
 (* ---- non-vacuity ---- *)
